@@ -120,7 +120,7 @@ def write_evidence(pid, tier, seed, hs, results, violations, known_hits, wall):
     json.dump(ev, open(tmp, 'w'), indent=1)
     os.replace(tmp, os.path.join(VERIF, 'evidence', pid + '.json'))
 
-SOURCE_COMMITS = []
+SOURCE_COMMITS = []  # no guarded hook commits; /repo carries only the two unguarded fix: commits b75d4f5, 30b7c2f (known-findings.txt)
 NOT_APPLICABLE = {
     'C16': 'the resolvers (mbin_dispatch_init*, hand-written CRC/RAID resolvers) and every selectable kernel are NASM; CBMC has no front end for them, a C transcription would be a model (different family), and no C contract can express CPUID/XGETBV behaviour',
 }
